@@ -16,7 +16,7 @@ SCENARIOS = [
     ("empty", [C("store", "p1", "a", "none"), C("store", "p2", "a", "none"),
                C("store", "p3", "a", "none"), C("store", "p1", "b", "none")]),
     ("shared", [C("delete", "p1"), C("delete", "p2"), C("store", "p3", "a", "none"),
-                C("tag", "p3", "b")]),
+                C("storenp", c="b")]),
     ("p1a", [C("tag", "p2", "a"), C("tag", "p3", "a"), C("delete", "p1"),
              C("store", "p1", "b", "none")]),
     ("unref", [C("tag", "p1", "a"), C("tag", "p1", "b"), C("store", "p2", "b", "none"),
